@@ -97,12 +97,13 @@ pub fn generate(prop: &str, tier: &str, seed: u64, w: &mut dyn Write) {
         "C01" => crate::gen_sigma::gen_c01(&mut o, tier, seed),
         "C02" => crate::gen_sigma::gen_c02(&mut o, tier, seed),
         "C03" => crate::gen_sigma::gen_c03(&mut o, tier, seed),
-        "C05" => crate::gen_sigma::gen_c05(&mut o, tier, seed),
+        "C04" => crate::gen_range::gen_c04(&mut o, tier, seed),
+        "C05" => { crate::gen_sigma::gen_c05(&mut o, tier, seed); crate::gen_range::gen_range_new(&mut o, tier, seed, true) }
         "C08" => crate::gen_enc::gen_c08(&mut o, tier, seed),
         "C09" => crate::gen_enc::gen_c09(&mut o, tier, seed),
         "C11" => crate::gen_enc::gen_c11(&mut o, tier, seed),
         "C12" => crate::gen_enc::gen_c12(&mut o, tier, seed),
-        "C20" => crate::gen_sigma::gen_c20(&mut o, tier, seed),
+        "C20" => { crate::gen_sigma::gen_c20(&mut o, tier, seed); crate::gen_range::gen_range_new(&mut o, tier, seed, false) }
         _ => {}
     }
 }
